@@ -301,8 +301,15 @@ def leaf_keys(td):
 
 def do_edit(y, e, counter):
     if e[0] == "value":
+        from tensordict import LazyStackedTensorDict
+        if isinstance(y, LazyStackedTensorDict):
+            # the leaves a lazy stack hands out are stacked COPIES: an in-place edit must go to the members
+            for m in y.tensordicts:
+                do_edit(m, e, counter)
+            return
         for v in y.values(True, True):
-            v.add_(7)      # in place: the yielded object of a locked original is locked too
+            if isinstance(v, torch.Tensor):
+                v.add_(7)      # in place: the yielded object of a locked original is locked too
     elif e[0] == "swap":
         # two entries exchanged: REBINDING (each path now names the tensor the other one named)
         ks = leaf_keys(y)
@@ -587,7 +594,7 @@ def same_td(a, b):
 
 
 # --------------------------------------------------------------------------- extended domain: other container kinds
-def build_lazy(st, lock=None):
+def build_lazy(st, lock=None, sd=0):
     """a lazy stack whose dense form is build(st): stacked along dim 0 (needs a non-empty first batch dim).
     lock in {None (= st[3] through the stack), 'no', 'stack' (lz.lock_()), 'members' (members locked before stacking: the stack's
     `_is_locked` is None and `is_locked` is derived), 'relocked' (stack locked, unlocked, members locked again one by one)}"""
@@ -595,18 +602,20 @@ def build_lazy(st, lock=None):
     from tensordict import TensorDict
     bs, names, keys, _ = st
     parts = []
-    for j in range(bs[0]):
-        m = TensorDict({}, batch_size=list(bs[1:]))
+    for j in range(bs[sd]):
+        m = TensorDict({}, batch_size=[x for q, x in enumerate(bs) if q != sd])
         for i, k in enumerate(keys):
             feat = (2,) if i % 2 else ()
             shape = tuple(bs) + feat
             full = (torch.arange(numel(shape), dtype=torch.int64) + 1000 * (i + 1)).reshape(shape)
-            m[k if len(k) > 1 else k[0]] = full[j].clone()
+            # (standard contiguous strides: select(...).clone() keeps an odd stride on size-1 dims, and torch refuses an in-place copy between
+            # two views of one memory whose strides differ — the memory-overlap class of known finding C17-locked-nested-overlap)
+            m[k if len(k) > 1 else k[0]] = full.select(sd, j).clone(memory_format=torch.contiguous_format)
         parts.append(m)
     if lock == "members":
         for m in parts:
             m.lock_()
-    lz = LazyStackedTensorDict(*parts, stack_dim=0)
+    lz = LazyStackedTensorDict(*parts, stack_dim=sd)
     if lock == "stack" or (lock is None and st[3]):
         lz.lock_()
     elif lock == "relocked":
